@@ -64,9 +64,9 @@ def generate(kind, builddir, repo=REPO, pkg=None):
     only = bridges_of(pkg) if pkg else None
     for k, v in list(_bridge().items()) + list(_inpkg(only).items()):
         rep[os.path.join(repo, k)] = v
-    if kind == 'shim':
+    if kind in ('shim', 'shimmem'):
         import shimgen
-        rep.update(shimgen.generate(builddir, repo))
+        rep.update(shimgen.generate(builddir, repo, mem=(kind == 'shimmem')))
     path = os.path.join(builddir, 'overlay-%s%s.json' % (kind, '-' + os.path.basename(pkg) if pkg else ''))
     tmp = path + '.%d.tmp' % os.getpid()
     json.dump({'Replace': rep}, open(tmp, 'w'), indent=1)
